@@ -37,6 +37,8 @@ type c14sRun struct {
 	peers  [c14sNPeer]core.PeerID
 	bogus  core.InfoHash
 	active map[string]*vIncoming // "p0h1" -> established connection
+	// pair ("p0h1") whose connection was closed, and its ConnClosed event applied, by the last operation
+	justClosed string
 }
 
 func (r *c14sRun) hash(tok string) (core.InfoHash, bool) {
@@ -60,9 +62,14 @@ func (r *c14sRun) status() {
 				// every connection attempt of this harness has ended when its operation returns
 				r.tr.PropFail("pending-leak", fmt.Sprintf("p%d", k), ht)
 			}
+			if st == "active" && r.justClosed == fmt.Sprintf("p%d%s", k, ht) {
+				// a closed connection must give its slot back (else the torrent stays saturated for ever)
+				r.tr.PropFail("closed-conn-keeps-slot", fmt.Sprintf("p%d", k), ht)
+			}
 		}
 	}
 	r.tr.Rec("st", nil, obs)
+	r.justClosed = ""
 }
 
 func c14sBitfield(kind string, np int) ([]byte, bool) {
@@ -126,6 +133,7 @@ func (r *c14sRun) do(op []string) bool {
 				return ok && ce.c == in.c
 			}, 10*time.Second); ok {
 				e.apply(w.st)
+				r.justClosed = op[2] + kv("name")
 			} else {
 				panic("harness: no ConnClosed event for a conn the scheduler closed")
 			}
@@ -151,6 +159,7 @@ func (r *c14sRun) do(op []string) bool {
 			return ok && ce.c == in.c
 		}, 10*time.Second); ok {
 			e.apply(w.st)
+			r.justClosed = op[2] + op[3]
 			r.tr.Op(op[1:], "closed")
 		} else {
 			panic("harness: no ConnClosed event after the remote end went away")
@@ -238,6 +247,18 @@ func TestVerif_C14Sched(t *testing.T) {
 				ops := [][]string{mk(0, n, cl, bf), mk(1, "h0", "h0", "ok"), {"op", "drop", "p0", n}, mk(0, "h0", "h0", "ok")}
 				c14sExec(tr, verifh.Case{Ops: ops})
 				tr.Count("single_handshake_cases", 1)
+			}
+		}
+	}
+	// (a2) a peer whose connection was closed (and which is therefore blacklisted) connects again — incoming
+	// connections are not checked against the blacklist — and goes away again: both closes must free the slot
+	for _, n := range []string{"h0", "h1"} {
+		for _, bf := range []string{"ok", "full", "dirty"} {
+			for _, other := range []string{"h0", "h1"} {
+				ops := [][]string{mk(0, n, n, "ok"), {"op", "drop", "p0", n}, mk(0, n, n, bf), {"op", "drop", "p0", n},
+					mk(1, other, other, "ok"), mk(0, n, n, "ok"), {"op", "drop", "p0", n}, mk(2, n, n, "ok")}
+				c14sExec(tr, verifh.Case{Ops: ops})
+				tr.Count("reconnect_cases", 1)
 			}
 		}
 	}
